@@ -170,9 +170,36 @@ func famForge(r *Rng, o *Out, tier string) {
 	for fam := 0; fam < n; fam++ {
 		key := r.Bytes(32)
 		loc := "https://api.fly.io/v1"
-		root, _ := macaroon.New(r.Bytes(8), loc, key)
-		for k, kk := 0, r.Intn(4); k < kk; k++ {
-			root.Add(r.plainCav(1))
+		var root *macaroon.Macaroon
+		oldFormat := r.Chance(1, 4)
+		if oldFormat {
+			// a token minted in the old two-field nonce format
+			root, _ = macaroon.Decode(oldFormatToken(key, r.Bytes(8), r.Bytes(16), loc))
+			o.count("root.v0")
+		} else {
+			root, _ = macaroon.New(r.Bytes(8), loc, key)
+		}
+		// half of the families carry a third-party caveat (at a random position among the issuer's caveats)
+		// and are presented with its unbound discharge: caveats AFTER it must be as protected as those before
+		var ds [][]byte
+		tpAt := -1
+		nroot := r.Intn(4)
+		if r.Bool() {
+			tpAt = r.Intn(nroot + 1)
+		}
+		for k := 0; k <= nroot; k++ {
+			if k == tpAt {
+				ka := r.Bytes(32)
+				it, _ := newTP(ka, "https://auth.example")
+				if root.Add(it.cav) == nil {
+					_, d, _ := macaroon.DischargeTicket(ka, "https://auth.example", it.tp.ticket)
+					ds = append(ds, mustEnc(d))
+					o.count("root.with3p")
+				}
+			}
+			if k < nroot {
+				root.Add(r.plainCav(1))
+			}
 		}
 		hs := growTree(r, root, 2, 2)
 		// what the attacker holds: a random non-empty subset
@@ -192,7 +219,10 @@ func famForge(r *Rng, o *Out, tier string) {
 		}
 		try := func(kind string, cand []byte) {
 			o.count("cand." + kind)
-			obs := emitVerify(o, key, cand, nil, nil)
+			obs := emitVerify(o, key, cand, ds, nil)
+			if obs == "err:unmodelled" {
+				return
+			}
 			if strings.HasPrefix(obs, "ok") && !extendsHonest(cand, hs) {
 				o.emit("(const sound)", "forgery:"+kind)
 			} else {
@@ -282,6 +312,35 @@ func famForge(r *Rng, o *Out, tier string) {
 			for name, ne := range nonceVariants {
 				for _, t := range [][]byte{m.Tail, finalizeSig(m.Tail), pick(r, heldTails)} {
 					try("nonce."+name, assemble(ne, loc, cs, t))
+				}
+			}
+			// a map-encoded token that names the Nonce field twice: a three-field nonce claiming "proof", then
+			// the real one.  The proof flag of the accepted token must be the minted one (for an old-format
+			// token: not a proof), so the finalised tail must not be accepted.
+			if nt != nil && nt.Kind == mpArr && len(nt.Kids) >= 2 {
+				kid, rnd := nt.Kids[0].S, nt.Kids[1].S
+				claim := &mpNode{Kind: mpArr, Kids: []*mpNode{{Kind: mpBin, S: kid}, {Kind: mpBin, S: rnd}, {Kind: mpBool, B: true}}}
+				cavsTree, _, _ := mpParse(assemble(nEnc, loc, cs, m.Tail)[1+len(nEnc)+len(mpEnc(mpStrNode(loc))):])
+				for _, t := range [][]byte{finalizeSig(m.Tail), m.Tail} {
+					for _, order := range [][2]*mpNode{{claim, nt}, {nt, claim}} {
+						if cavsTree == nil {
+							continue
+						}
+						tokm := &mpNode{Kind: mpMap, Kids: []*mpNode{mpStrNode("Nonce"), order[0], mpStrNode("Nonce"), order[1],
+							mpStrNode("Location"), mpStrNode(loc), mpStrNode("UnsafeCaveats"), cavsTree, mpStrNode("Tail"), {Kind: mpBin, S: t}}}
+						cand := mpEnc(tokm)
+						o.count("cand.dupnonce")
+						obs := emitVerify(o, key, cand, ds, nil)
+						if obs == "err:unmodelled" {
+							continue
+						}
+						// accepted with the finalised tail = accepted as a proof although minted as a non-proof
+						if strings.HasPrefix(obs, "ok") && bytes.Equal(t, finalizeSig(m.Tail)) {
+							o.emit("(const sound)", "forgery:proof-flag-changed-by-duplicate-nonce-field")
+						} else {
+							o.emit("(const sound)", "sound")
+						}
+					}
 				}
 			}
 			// location is not authenticated: changing it must not matter (accepted, and still extends h)
@@ -473,6 +532,9 @@ func famDischarge(r *Rng, o *Out, tier string) {
 				ds[i], ds[j] = ds[j], ds[i]
 			}
 			obs := emitVerify(o, key, final, ds, nil)
+			if obs == "err:unmodelled" {
+				continue
+			}
 			accepted := strings.HasPrefix(obs, "ok")
 			o.count(fmt.Sprintf("tps.%d", len(tps)))
 			// oracle: accepted iff every third-party caveat has a genuine candidate among the presented ones
@@ -590,6 +652,9 @@ func famBind(r *Rng, o *Out, tier string) {
 			d := mkDis([][]byte{hs[bi].bytes}, false)
 			for pi := range hs {
 				obs := emitVerify(o, key, hs[pi].bytes, [][]byte{d}, nil)
+				if obs == "err:unmodelled" {
+					continue
+				}
 				want := isDescendant(hs, pi, bi)
 				o.count(fmt.Sprintf("pair.want%v", want))
 				if strings.HasPrefix(obs, "ok") != want {
@@ -601,6 +666,9 @@ func famBind(r *Rng, o *Out, tier string) {
 			// presented with an unrelated token (its own caveat has another ticket: no discharge at all) - rejected
 			for pi := range hs2 {
 				obs := emitVerify(o, key, hs2[pi].bytes, [][]byte{d}, nil)
+				if obs == "err:unmodelled" {
+					continue
+				}
 				if strings.HasPrefix(obs, "ok") {
 					o.emit("(const sound)", "accepted-with-unrelated-token")
 				} else {
@@ -618,6 +686,9 @@ func famBind(r *Rng, o *Out, tier string) {
 			}
 			pi := r.Intn(len(hs))
 			obs := emitVerify(o, key, hs[pi].bytes, [][]byte{d}, nil)
+			if obs == "err:unmodelled" {
+				continue
+			}
 			want := isDescendant(hs, pi, b1) && isDescendant(hs, pi, b2) && !bogus
 			o.count("multi")
 			if strings.HasPrefix(obs, "ok") != want {
@@ -630,6 +701,9 @@ func famBind(r *Rng, o *Out, tier string) {
 		pm, _ := macaroon.Decode(hs[r.Intn(len(hs))].bytes)
 		pm.BindToParentMacaroon(root)
 		obs := emitVerify(o, key, mustEnc(pm), [][]byte{mkDis(nil, false)}, nil)
+		if obs == "err:unmodelled" {
+			continue
+		}
 		if strings.HasPrefix(obs, "ok") {
 			o.emit("(const sound)", "bound-permission-token-accepted")
 		} else {
@@ -966,6 +1040,9 @@ func famProof(r *Rng, o *Out, tier string) {
 			dd.Tail = pick(r, [][]byte{t, finalizeSig(t), dd.Tail, sha(dd.Tail), finalizeSig(dd.Tail)})
 			cand := mustEnc(dd)
 			obs := emitVerify(o, rn, cand, nil, nil)
+			if obs == "err:unmodelled" {
+				continue
+			}
 			if strings.HasPrefix(obs, "ok") {
 				o.emit("(const sound)", "hand-extended-proof-accepted")
 			} else {
